@@ -319,6 +319,29 @@ pub fn run_c18(args: &Args) -> i32 {
     let window = window_family();
     let mut all: Vec<u64> = small.clone();
     all.extend(&window);
+    // rank-symmetric boards plus one odd square: ranks 1-3 mirrored exactly on ranks 8-6 (every
+    // singleton and pair of the lower 24 squares) and one square on rank 4 or 5 - a shortcut that
+    // recognises 'boards that mirror onto themselves' must look at the middle ranks too
+    {
+        let mut lows: Vec<u64> = vec![];
+        for i in 0..24u32 {
+            lows.push(1u64 << i);
+            for j in (i + 1)..24 {
+                if (i + j) % 3 == 0 {
+                    lows.push((1u64 << i) | (1u64 << j));
+                }
+            }
+        }
+        for p in lows {
+            let sym = p | p.swap_bytes();
+            all.push(sym);
+            for mid in [24u32, 27, 31, 32, 36, 39] {
+                all.push(sym | (1u64 << mid));
+            }
+            all.push(sym | 0x0000_00ff_0000_0000);
+            all.push(sym | 0x0000_0081_4200_0000);
+        }
+    }
     // irregular boards of every density (the structured families above have <= 16 or >= 48 squares or
     // a regular pattern): a fixed xorshift sequence mixed with VERIF_SEED, each value also thinned
     // (and of two) and thickened (or of two)
@@ -435,7 +458,7 @@ pub fn run_c18(args: &Args) -> i32 {
         json!({
             "evaluations": evals,
             "distinct_nontrivial": all.len() as u64 - 1,
-            "rule": "family = {empty, full, 64 singletons, 2016 pairs, 8 files, 8 ranks, complements of all of these} plus all 2^16 subsets of the 16-square window a1 b1 h1 a2 b2 h2 a8 b8 h8 g7 d4 e4 d5 e5 c3 f6 (every edge type) plus 5120 irregular boards of every density (a fixed xorshift sequence mixed with VERIF_SEED; each value, and-thinned and or-thickened). Every unary operation and every per-square operation (x 64 squares) on every member; the iterator explored from every suffix state of every member with next, size_hint and nth(n) for n in 0..=66 and ~70 values around every power of two up to 2^63 and usize::MAX (result and the state left behind compared with skipping n elements); all binary operators and their assign forms on small x small (thorough: small x everything). Non-trivial = distinct non-empty boards.",
+            "rule": "family = {empty, full, 64 singletons, 2016 pairs, 8 files, 8 ranks, complements of all of these} plus all 2^16 subsets of the 16-square window a1 b1 h1 a2 b2 h2 a8 b8 h8 g7 d4 e4 d5 e5 c3 f6 (every edge type) plus ~1100 rank-symmetric boards with an odd square on rank 4 or 5 plus 5120 irregular boards of every density (a fixed xorshift sequence mixed with VERIF_SEED; each value, and-thinned and or-thickened). Every unary operation and every per-square operation (x 64 squares) on every member; the iterator explored from every suffix state of every member with next, size_hint and nth(n) for n in 0..=66 and ~70 values around every power of two up to 2^63 and usize::MAX (result and the state left behind compared with skipping n elements); all binary operators and their assign forms on small x small (thorough: small x everything). Non-trivial = distinct non-empty boards.",
             "family_size": all.len(),
             "bmi2_path": cfg!(target_feature = "bmi2"),
             "same_check_in_build_without_bmi2": other_flavour,
